@@ -633,7 +633,8 @@ def kani_missing_fns(gpath, bdir):
     fns = sorted(set(re.findall(r"error\[E0425\]: cannot find function `(\w+)` in this scope", txt)))
     names = sorted(set(re.findall(r"use of undeclared type `(\w+)`", txt) + re.findall(r"cannot find (?:type|trait|struct, variant or union type|macro) `(\w+)` in this scope", txt)
                        + re.findall(r"use of undeclared crate or module `(\w+)`", txt) + re.findall(r"use of unresolved module or unlinked crate `(\w+)`", txt)))
-    return fns, names
+    methods = sorted(set(re.findall(r"no method named `(\w+)` found for (?:struct|enum|reference) `&?(\w+)`", txt)))
+    return fns, names, methods
 
 
 def unit_kani(u, tier):
@@ -650,8 +651,8 @@ def unit_kani(u, tier):
     # (typical after a refactoring that factors a helper out), fetch `fn <name>` from the same source files and retry
     auto_added = []
     for _round in range(3):
-        missing, missing_names = kani_missing_fns(gpath, bdir)
-        if not missing and not missing_names:
+        missing, missing_names, missing_methods = kani_missing_fns(gpath, bdir)
+        if not missing and not missing_names and not missing_methods:
             break
         extra = []
         uses = []
@@ -667,6 +668,16 @@ def unit_kani(u, tier):
                     continue
                 extra.append(f"//@item {f} :: fn {fnname} ;; id=auto_{fnname}")
                 auto_added.append(f"{f} :: fn {fnname}")
+                break
+        # a method of a stand-in type that exists on the real type in one of the source files (a helper factored out into a method)
+        for (mname, tname) in missing_methods:
+            for f in files:
+                try:
+                    extract.locate(extract.load(f), f"impl {tname} #* > fn {mname}")
+                except (LostAnchor, Unsupported):
+                    continue
+                extra.append(f"impl {tname} {{\n//@item {f} :: impl {tname} #* > fn {mname} ;; id=auto_{tname}_{mname}\n}}")
+                auto_added.append(f"{f} :: impl {tname} > fn {mname}")
                 break
         # a std item the source file imports but the template does not (e.g. a new `use std::mem::ManuallyDrop`)
         for nm in missing_names:
